@@ -203,6 +203,8 @@ def run(tier):
                 "recovered_or_concurrent_entries": sum(len(e.get("recovered", [])) for d in docs for e in d["events"]),
                 "histories_ended_by_async_replacement": sum(1 for d in docs if d.get("stopped")), "fixture_stops": stops[:5]})
     c.set("random_histories", tot)
+    if stops and not c.violations:
+        raise V.ToolError("histories ended by a fixture error (never on the unchanged tree): %s" % stops[:3])
     if tot["reorgs"] < nh or readded == 0 or tot["side_branches_with_commits"] == 0 or tot["mine_mode"] in (0, len(docs)):
         raise V.ToolError("vacuous run: %s" % tot)
     c.sample({"history_prefix": [{k: e[k] for k in e if k in ("ev", "t", "ok", "detach", "attach", "st", "recovered")} for e in docs[0]["events"][:7]]})
